@@ -27,6 +27,9 @@ F = F_SRV
 
 # the handlers see capture / save through their caller-side contracts (no precondition, may raise); the functions
 # themselves are under contract in C19
+# ... and the function body itself is verified against its full contract of C19 under an alias: capturing a snapshot changes neither
+# the live session (in particular not its lock: a /save-state during a running multi-step request must not release it) nor the table
+CONTRACTS['InstanceManager._get_instance_state#capture'] = CONTRACTS['InstanceManager._get_instance_state']
 CONTRACTS['InstanceManager._get_instance_state'] = srv.GIS_LENIENT
 
 # ---- the bptk session methods the handlers call: assumed per-object contracts -----------------------------------------
